@@ -11,7 +11,7 @@ INJECTS = [("harness/libacc/lib_verif.go", "pkg/station/lib/zz_verif_acc.go"),
            ("harness/c09/main/log.go", "internal/zzverif_c09/log.go")]
 ASSUME = ["scheduling points: every lock acquisition (RWMutex with writer preference), channel operation and select, thread spawn, the liveness probe and the resolver (that is where real workers spend their time); releases are not points; stats counters use atomics and are not points",
           "serial differential oracle: the set of outcomes (announcement multiset with the covert at announcement time, final registry incl. validity / duplicate count / covert / used flag, every lookup's answer) of all serial orders of the same thread bodies is the specification; every concurrent outcome must be a member",
-          "unsynchronised accesses (OnReload vs workers) are invisible to the cooperative scheduler: that clause of the property is covered only by the free-running -race companion, which is not part of this check's verdict"]
+          "unsynchronised accesses are invisible to the cooperative scheduler: the clause 'never accessed without synchronisation' is covered by a free-running companion run of the same operations on the unmodified code under the Go race detector (adjunct_runs in the coverage; a sample of schedules, every report is a violation)"]
 S15 = ["S1:same-registration-twice+connection", "S2:same-secret-different-covert", "S2b:unresolved-name-vs-literal", "S3:worker+sweeper+connection@9m59s", "S3:worker+sweeper+connection@10m1s", "S4:worker+reload+lookup", "S5:three-workers+sweeper"]
 def scripts(m, after):
     """all orderings of m arrivals, one probe-release and one stop, followed by `after` arrivals after the stop"""
@@ -32,17 +32,42 @@ def build():
     return vlib.build("c09", REWRITES, INJECTS, "./internal/zzverif_c09")
 
 
+RACE_INJECTS = [("harness/libacc/lib_verif.go", "pkg/station/lib/zz_verif_acc.go"), ("harness/c09/race/main.go", "internal/zzverif_c09race/main.go")]
+
+
+def race_companion(tier):
+    """The clause 'shared state is never accessed without synchronisation': the same operations free-running on the
+    unmodified code under the Go race detector (a sample of schedules; adjunct to the exhaustive search above).
+    race:noreload = ingests + sweeper + connection handlers + stats + pipeline; race:reload adds OnReload."""
+    def key(sc, k):
+        return ("data-race:during-reload:" if sc == "race:reload" else "data-race:") + k
+    return vlib.race_pass("c09race", RACE_INJECTS, "./internal/zzverif_c09race", ["race:noreload", "race:reload"],
+                          budget=240 if tier == "thorough" else 40, keyfn=key)
+
+
 def run(tier, seed, t0):
     w = build()
     budget = 1500 if tier == "thorough" else 170
     scen = S15 + S6Q + (S6T if tier == "thorough" else [])
     res = vlib.run_workers(w, [["-scenario", s, "-tier", tier, "-budget", str(budget)] for s in scen], timeout=budget + 180)
+    res += race_companion(tier)
     vlib.finish(PID, tier, "model_checking", res, t0, ASSUME,
                 "stateless DFS (state-key pruning; no preemption bound for S1-S4, bound 2/3 for S5, 1 (quick) / 2-3 (thorough) for the pipeline) over interleavings of: S1 two workers ingesting the same registration + a connection handler (lookup, activate) twice; S2/S2b two workers with the same secret and transport but different covert (forbidden literal / name resolving to a forbidden address vs permitted) + connection; S3 duplicate worker + sweeper + connection around the 10 min expiry; S4 worker + OnReload that flips the covert policy + lookup; S5 three workers + sweeper; S6 the real HandleRegUpdates with 1/2/3 (thorough: also 10, i.e. a buffered hand-off) workers, a feeder, probes blocked until released, and a stop request at any moment with and without further input",
                 seed=seed)
 
 
 def replay(path):
+    import json
+    rp = json.load(open(path)).get("replay") or {}
+    if rp.get("kind") == "race":
+        recs = race_companion("quick")
+        hit = [v for r in recs for v in r["violations"] if v["replay"]["scenario"] == rp.get("scenario")]
+        if hit:
+            print(hit[0]["replay"]["report"][:3000])
+            print("VIOLATION property=%s replay=%s" % (PID, path))
+            sys.exit(1)
+        print("replay: no race reported")
+        sys.exit(0)
     w = build()
     out = vlib.run_worker(w, ["-replay", path], 300)
     if "error" in out:
